@@ -8,27 +8,32 @@ namespace Litep2pVerif.Chan
 
 /-- Operations of one open period (any order, any arguments = any schedule). -/
 inductive Op
-  | sync (m : Msg) | async (m : Msg) | letIn (fuel : Nat) | poll | read (n : Nat) (frames : List (Nat × Nat))
+  | sync (m : Msg) | async (m : Msg) | letIn (fuel : Nat) | poll (picks : List Nat) | read (n : Nat) (frames : List (Nat × Nat))
   | rsend (m : Msg) | rclose | close | user
 
 def apply (c : Chan) : Op → Chan
   | .sync m => (syncSend c m).1
   | .async m => (asyncSend c m).1
   | .letIn f => if c.alive then (letIn c f).1 else c
-  | .poll => (taskPoll c).1
+  | .poll picks => (taskPoll c picks).1
   | .read n fr => (remoteRead c n fr).getD c
   | .rsend m => { c with inQ := c.inQ ++ [m] }
   | .rclose => { c with inClosed := true }
   | .close => { c with signalled := true }
   | .user => (pollHandle c).1
 
-/-- Ledger of one mode: what the remote has read, what the task holds, what is queued — together exactly
-the accepted notifications while the task lives, a prefix of them afterwards. -/
+/-- The parked notification (`next_notification`), by the queue it was taken from. -/
+def parkS : Option (Bool × Msg) → List Msg | some (true, m) => [m] | _ => []
+def parkA : Option (Bool × Msg) → List Msg | some (false, m) => [m] | _ => []
+
+/-- Ledger of one mode: what the remote has read, what the task handed to the substream, what it holds
+parked, what is queued — together exactly the accepted notifications while the task lives, a prefix of them
+afterwards. -/
 structure Inv (c : Chan) : Prop where
-  s : c.delS ++ c.sBuf ++ c.syncQ <+: c.accS
-  sa : c.alive = true → c.delS ++ c.sBuf ++ c.syncQ = c.accS
-  a : c.delA ++ c.aBuf ++ c.asyncQ <+: c.accA
-  aa : c.alive = true → c.delA ++ c.aBuf ++ c.asyncQ = c.accA
+  s : c.delS ++ c.sBuf ++ parkS c.parked ++ c.syncQ <+: c.accS
+  sa : c.alive = true → c.delS ++ c.sBuf ++ parkS c.parked ++ c.syncQ = c.accS
+  a : c.delA ++ c.aBuf ++ parkA c.parked ++ c.asyncQ <+: c.accA
+  aa : c.alive = true → c.delA ++ c.aBuf ++ parkA c.parked ++ c.asyncQ = c.accA
 
 theorem prefix_drop {α} (a b c : List α) (h : a ++ b <+: c) : a <+: c :=
   (List.prefix_append a b).trans h
@@ -79,8 +84,8 @@ theorem read_inv : ∀ (fr : List (Nat × Nat)) (c : Chan) (n : Nat) (c' : Chan)
 
 theorem close_inv {c : Chan} (h : Inv c) : Inv (closeTask c) := by
   refine ⟨?_, fun ha => by simp [closeTask] at ha, ?_, fun ha => by simp [closeTask] at ha⟩
-  · simpa [closeTask] using prefix_drop _ _ _ h.s
-  · simpa [closeTask] using prefix_drop _ _ _ h.a
+  · simpa [closeTask, parkS] using prefix_drop _ _ _ (prefix_drop _ _ _ h.s)
+  · simpa [closeTask, parkA] using prefix_drop _ _ _ (prefix_drop _ _ _ h.a)
 
 theorem readInbound_inv (f : Nat) : ∀ c, Inv c → Inv (readInbound c f).1 := by
   induction f with
@@ -95,6 +100,90 @@ theorem readInbound_inv (f : Nat) : ∀ c, Inv c → Inv (readInbound c f).1 := 
       · split
         · exact ⟨h.s, h.sa, h.a, h.aa⟩
         · exact ih _ ⟨h.s, h.sa, h.a, h.aa⟩
+
+/-- Ledger lists. -/
+def ledS (c : Chan) : List Msg := c.delS ++ c.sBuf ++ parkS c.parked ++ c.syncQ
+def ledA (c : Chan) : List Msg := c.delA ++ c.aBuf ++ parkA c.parked ++ c.asyncQ
+
+theorem inv_led {c : Chan} : Inv c ↔ (ledS c <+: c.accS ∧ (c.alive = true → ledS c = c.accS) ∧
+    ledA c <+: c.accA ∧ (c.alive = true → ledA c = c.accA)) :=
+  ⟨fun h => ⟨h.s, h.sa, h.a, h.aa⟩, fun ⟨a, b, c, d⟩ => ⟨a, b, c, d⟩⟩
+
+theorem inv_of_led {c c' : Chan} (h : Inv c) (hs : ledS c' = ledS c) (ha : ledA c' = ledA c)
+    (has : c'.accS = c.accS) (haa : c'.accA = c.accA) (hal : c'.alive = c.alive) : Inv c' := by
+  rw [inv_led] at h ⊢
+  rw [hs, ha, has, haa, hal]; exact h
+
+/-- Taking the next notification moves it out of the ledger's parked/queued part, nothing else changes. -/
+theorem nextNotif_led {c c1 : Chan} {picks picks1 : List Nat} {p : Bool × Msg}
+    (h : nextNotif c picks = some (p, c1, picks1)) :
+    ledS c = c1.delS ++ c1.sBuf ++ (if p.1 then [p.2] else []) ++ c1.syncQ ∧
+    ledA c = c1.delA ++ c1.aBuf ++ (if p.1 then [] else [p.2]) ++ c1.asyncQ ∧
+    c1.parked = none ∧ c1.accS = c.accS ∧ c1.accA = c.accA ∧ c1.alive = c.alive ∧ c1.cfg = c.cfg := by
+  unfold nextNotif at h
+  split at h
+  · rename_i q hq
+    cases h
+    obtain ⟨b, m⟩ := p
+    cases b <;> simp [ledS, ledA, parkS, parkA, hq]
+  · rename_i hq
+    split at h
+    · cases h
+    · cases h; simp [ledS, ledA, parkS, parkA, hq, *]
+    · cases h; simp [ledS, ledA, parkS, parkA, hq, *]
+    · split at h <;> cases h <;> simp [ledS, ledA, parkS, parkA, hq, *]
+
+theorem pollReady_same (c : Chan) :
+    (pollReady c).1.delS = c.delS ∧ (pollReady c).1.sBuf = c.sBuf ∧ (pollReady c).1.syncQ = c.syncQ ∧
+    (pollReady c).1.delA = c.delA ∧ (pollReady c).1.aBuf = c.aBuf ∧ (pollReady c).1.asyncQ = c.asyncQ ∧
+    (pollReady c).1.parked = c.parked ∧ (pollReady c).1.accS = c.accS ∧ (pollReady c).1.accA = c.accA ∧
+    (pollReady c).1.alive = c.alive ∧ (pollReady c).1.cfg = c.cfg := by
+  unfold pollReady
+  split <;> simp [flush]
+
+theorem close_of_prefix {c : Chan} (hs : c.delS ++ c.sBuf <+: c.accS) (ha : c.delA ++ c.aBuf <+: c.accA) :
+    Inv (closeTask c) :=
+  ⟨by simpa [closeTask, parkS] using hs, fun x => by simp [closeTask] at x,
+   by simpa [closeTask, parkA] using ha, fun x => by simp [closeTask] at x⟩
+
+/-- The outbound loop keeps the ledger; it ends with the task alive unless it closed the connection. -/
+theorem outLoop_inv (f : Nat) : ∀ (c : Chan) (picks : List Nat), Inv c → c.alive = true →
+    Inv (outLoop c picks f).1 ∧ ((outLoop c picks f).2 = false → (outLoop c picks f).1.alive = true) := by
+  induction f with
+  | zero => intro c picks h ha; exact ⟨h, fun _ => ha⟩
+  | succ n ih =>
+    intro c picks h ha
+    simp only [outLoop]
+    split
+    · exact ⟨h, fun _ => ha⟩
+    · rename_i p c1 picks1 hn
+      obtain ⟨hs, hA, hp, has, haa, hal, hcfg⟩ := nextNotif_led hn
+      obtain ⟨q1, q2, q3, q4, q5, q6, q7, q8, q9, q10, q11⟩ := pollReady_same c1
+      obtain ⟨b, m⟩ := p
+      have h' := inv_led.mp h
+      rw [hs, hA] at h'
+      split
+      · split
+        · -- `start_send` refuses: the connection closes
+          refine ⟨?_, fun x => by simp at x⟩
+          apply close_of_prefix
+          · rw [q1, q2, q8, has]; exact prefix_drop _ _ _ (prefix_drop _ _ _ h'.1)
+          · rw [q4, q5, q9, haa]; exact prefix_drop _ _ _ (prefix_drop _ _ _ h'.2.2.1)
+        · apply ih
+          · apply inv_of_led h
+            · rw [hs]; cases b <;> simp [ledS, pushOut, parkS, q1, q2, q3, q7, hp]
+            · rw [hA]; cases b <;> simp [ledA, pushOut, parkA, q4, q5, q6, q7, hp]
+            · cases b <;> simp [pushOut, q8, has]
+            · cases b <;> simp [pushOut, q9, haa]
+            · cases b <;> simp [pushOut, q10, hal]
+          · cases b <;> simp [pushOut, q10, hal, ha]
+      · refine ⟨?_, fun _ => by simp [q10, hal, ha]⟩
+        apply inv_of_led h
+        · rw [hs]; cases b <;> simp [ledS, parkS, q1, q2, q3]
+        · rw [hA]; cases b <;> simp [ledA, parkA, q4, q5, q6]
+        · simp [q8, has]
+        · simp [q9, haa]
+        · simp [q10, hal]
 
 theorem apply_inv (c : Chan) (op : Op) (h : Inv c) : Inv (apply c op) := by
   cases op with
@@ -127,7 +216,7 @@ theorem apply_inv (c : Chan) (op : Op) (h : Inv c) : Inv (apply c op) := by
     split
     · rename_i ha; exact (letIn_inv f c h ha).1
     · exact h
-  | poll =>
+  | poll picks =>
     simp only [apply, taskPoll]
     split
     · exact h
@@ -135,18 +224,15 @@ theorem apply_inv (c : Chan) (op : Op) (h : Inv c) : Inv (apply c op) := by
       have hal : c.alive = true := by simpa using hal
       split
       · exact close_inv h
-      · split
-        · exact close_inv h
-        · have hs := h.sa hal
-          have ha := h.aa hal
-          have key : ∀ x : Chan, Inv x → Inv (if (readInbound x 4096).2 = true
-              then (closeTask (readInbound x 4096).1, some true) else ((readInbound x 4096).1, (none : Option Bool))).1 := by
-            intro x hx
-            split
-            · exact close_inv (readInbound_inv _ _ hx)
-            · exact readInbound_inv _ _ hx
-          apply key
-          refine ⟨?_, fun _ => ?_, ?_, fun _ => ?_⟩ <;> simp [flush, ← hs, ← ha]
+      · have ho := outLoop_inv (c.syncQ.length + c.asyncQ.length + 1) c picks h hal
+        split
+        · exact ho.1
+        · simp only [afterOut]
+          have hf : Inv (flush (outLoop c picks (c.syncQ.length + c.asyncQ.length + 1)).1) :=
+            inv_of_led ho.1 rfl rfl rfl rfl rfl
+          split
+          · exact close_inv (readInbound_inv _ _ hf)
+          · exact readInbound_inv _ _ hf
   | read n fr =>
     simp only [apply]
     rcases hr : remoteRead c n fr with _ | c'
@@ -163,14 +249,15 @@ inductive Reach (c0 : Chan) : Chan → Prop
 
 theorem reach_inv {c0 c : Chan} (h : Reach c0 c) : Inv c := by
   induction h with
-  | init => exact ⟨by simp [reopen], fun _ => by simp [reopen], by simp [reopen], fun _ => by simp [reopen]⟩
+  | init => exact ⟨by simp [reopen, parkS], fun _ => by simp [reopen, parkS], by simp [reopen, parkA], fun _ => by simp [reopen, parkA]⟩
   | step op _ ih => exact apply_inv _ op ih
 
 /-- For each sending mode and every schedule, what the remote has read is a prefix of the notifications
 accepted for sending in this open period, in order. -/
 theorem per_mode_prefix {c0 c : Chan} (h : Reach c0 c) : c.delS <+: c.accS ∧ c.delA <+: c.accA := by
   have i := reach_inv h
-  exact ⟨prefix_drop _ _ _ (prefix_drop _ _ _ i.s), prefix_drop _ _ _ (prefix_drop _ _ _ i.a)⟩
+  exact ⟨prefix_drop _ _ _ (prefix_drop _ _ _ (prefix_drop _ _ _ i.s)),
+    prefix_drop _ _ _ (prefix_drop _ _ _ (prefix_drop _ _ _ i.a))⟩
 
 /-- … hence delivered at most once (accepted sequence numbers are distinct). -/
 theorem at_most_once {c0 c : Chan} (h : Reach c0 c) (hs : c.accS.Nodup) (ha : c.accA.Nodup) :
@@ -231,8 +318,8 @@ theorem oversize_not_delivered (f : Nat) : ∀ c : Chan,
           · exact h x hx
           · simp at hsz; simpa using hsz
 
-def demoCfg : Cfg := ⟨2, 1, 2, 16, 32⟩
-def demo : Chan := [Op.sync ⟨0, 1, 5⟩, .sync ⟨0, 2, 5⟩, .async ⟨1, 1, 5⟩, .poll, .read 12 [(0, 1), (1, 1)]].foldl apply (reopen { cfg := demoCfg, viewHas := true })
+def demoCfg : Cfg := { syncCap := 2, asyncCap := 1, notifCap := 2, pipeCap := 16, maxSize := 32 }
+def demo : Chan := [Op.sync ⟨0, 1, 5⟩, .sync ⟨0, 2, 5⟩, .async ⟨1, 1, 5⟩, .poll [], .read 12 [(0, 1), (1, 1)]].foldl apply (reopen { cfg := demoCfg, viewHas := true })
 
 example : demo.delS = [⟨0, 1, 5⟩] ∧ demo.delA = [⟨1, 1, 5⟩] ∧ demo.accS.length = 2 := by decide
 example : (syncSend { cfg := demoCfg, viewHas := true, alive := true, syncQ := [⟨0, 1, 5⟩, ⟨0, 2, 5⟩] } ⟨0, 3, 5⟩).2 = (.clogged, true) := by decide
